@@ -208,13 +208,17 @@ func (p *packet) modifyParameters() (*modifyParameters, error) {
 		}
 		chg.Modification.Type = modificationPacket.Children[childModificationType].Data.String()
 
-		// get the modification values
-		if len(modificationPacket.Children) < childModificationValues+1 {
+		// get the modification values: they are the children of the set which
+		// follows the modification type
+		if err := modificationPacket.assert(ber.ClassUniversal, ber.TypeConstructed, withTag(ber.TagSet), withAssertChild(childModificationValues)); err != nil {
 			return nil, fmt.Errorf("%s: missing modification values packet: %w", op, ErrInvalidParameter)
 		}
-		chg.Modification.Vals = make([]string, 0, len(modificationPacket.Children)-1)
-		for _, value := range modificationPacket.Children[1:] {
-			chg.Modification.Vals = append(chg.Modification.Vals, value.Data.String())
+		valuesPacket := modificationPacket.Children[childModificationValues]
+		chg.Modification.Vals = make([]string, 0, len(valuesPacket.Children))
+		for _, value := range valuesPacket.Children {
+			// one element per value, each in its ber encoded form (see
+			// ConvertString)
+			chg.Modification.Vals = append(chg.Modification.Vals, string(value.Bytes()))
 		}
 
 		parameters.changes = append(parameters.changes, chg)
